@@ -2,6 +2,7 @@
 """Verify seeded changes and run the checks against them.
 
   seedcheck.py verify <dir-with-mutN.diff...> <pid>     (raw sub-agent output)
+  seedcheck.py refs <dir-with-refN.diff...> <pid>       (behaviour-preserving refactorings: every check must stay silent)
   seedcheck.py run [<seeded-id> ...]                    (committed /verif/seeded/*)
 
 For every change: scratch worktree of /repo HEAD outside /repo and /verif,
@@ -42,10 +43,11 @@ def one(patch: Path, demo: Path, pid: str, name: str, with_tests=True):
             return res
         shutil.copy(f"{REPO}/src/stationeers_pytrapic/_version.py", f"{wt}/src/stationeers_pytrapic/_version.py")
         env = {"PYTHONPATH": f"{wt}/src", "PYTRAPIC_ROOT": wt, "PYTHONDONTWRITEBYTECODE": "1"}
-        rc, out = sh([PY, str(demo)], cwd="/tmp", env=env, timeout=900)
-        res["demo_clean"] = rc
-        if rc:
-            res["demo_clean_out"] = out[-600:]
+        if demo is not None:
+            rc, out = sh([PY, str(demo)], cwd="/tmp", env=env, timeout=900)
+            res["demo_clean"] = rc
+            if rc:
+                res["demo_clean_out"] = out[-600:]
         rc, out = sh(["git", "-C", wt, "apply", "--3way", str(patch)])
         if rc:
             rc, out = sh(["git", "-C", wt, "apply", str(patch)])
@@ -57,9 +59,10 @@ def one(patch: Path, demo: Path, pid: str, name: str, with_tests=True):
             rc, out = sh([PY, str(VERIF / "tools/pytest_relaxed.py"), wt], cwd="/tmp", env=env, timeout=1800)
             res["tests"] = rc
             res["tests_tail"] = out.strip().splitlines()[-1] if out.strip() else ""
-        rc, out = sh([PY, str(demo)], cwd="/tmp", env=env, timeout=900)
-        res["demo_mutated"] = rc
-        res["demo_mutated_tail"] = out.strip()[-300:]
+        if demo is not None:
+            rc, out = sh([PY, str(demo)], cwd="/tmp", env=env, timeout=900)
+            res["demo_mutated"] = rc
+            res["demo_mutated_tail"] = out.strip()[-300:]
         checks = {}
         for p in PIDS:
             rc, out = sh([str(VERIF / "check"), p, "--repo", wt, "--no-evidence"], cwd=str(VERIF))
@@ -84,6 +87,10 @@ def main(argv):
             n = patch.stem[3:]
             demo = d / f"demo{n}.py"
             jobs.append((patch, demo, pid, f"{pid}-{n}", True))
+    elif mode == "refs":
+        d, pid = Path(argv[1]), argv[2]
+        for patch in sorted(d.glob("ref*.diff")):
+            jobs.append((patch, None, pid, f"{pid}-ref{patch.stem[3:]}", True))
     else:
         want = argv[1:]
         for sd in sorted((VERIF / "seeded").iterdir()):
